@@ -1,18 +1,70 @@
 //! Thread pools (only with the `rayon` feature; otherwise the closure just runs).
+//!
+//! Pools are cached per size, but the number of cached worker threads is capped: a shard that has used every size
+//! 1..=32 and a few huge ones would otherwise hold ~700 idle threads, and 16 shards of that exhaust the host's
+//! thread limit (seen as `ThreadPoolBuildError … WouldBlock` in a loaded sandbox). Failing to create a thread is a
+//! resource problem of the host, never a verdict: after retries the case panics with the `RESOURCE_MARK` prefix,
+//! which `run::Ctx::drive` turns into an inconclusive shard.
+
+/// Prefix of a panic message that means "the host could not provide a resource", not "the library failed".
+pub const RESOURCE_MARK: &str = "FIRV-RESOURCE";
+
+#[cfg(feature = "rayon")]
+pub struct Pools {
+    pools: Vec<(usize, std::sync::Arc<rayon::ThreadPool>)>,
+    cap: usize,
+}
+
+#[cfg(feature = "rayon")]
+impl Pools {
+    pub fn new() -> Pools {
+        Pools { pools: Vec::new(), cap: 160 }
+    }
+    fn threads(&self) -> usize {
+        self.pools.iter().map(|p| p.0).sum()
+    }
+    pub fn get(&mut self, n: usize) -> std::sync::Arc<rayon::ThreadPool> {
+        if let Some(i) = self.pools.iter().position(|p| p.0 == n) {
+            let p = self.pools.remove(i);
+            self.pools.push(p);
+            return self.pools.last().unwrap().1.clone();
+        }
+        // evict the least recently used pools (dropping a pool ends its threads)
+        while !self.pools.is_empty() && self.threads() + n > self.cap {
+            self.pools.remove(0);
+        }
+        if std::env::var_os("FIRV_TEST_POOL_FAIL").is_some() && n > 4 {
+            // self-test of the verdict path only: behave as if the host refused the threads
+            panic!("{}: cannot create a pool of {} threads: simulated", RESOURCE_MARK, n);
+        }
+        let mut wait = 50u64;
+        for attempt in 0..14 {
+            match rayon::ThreadPoolBuilder::new().num_threads(n).build() {
+                Ok(p) => {
+                    self.pools.push((n, std::sync::Arc::new(p)));
+                    return self.pools.last().unwrap().1.clone();
+                }
+                Err(e) => {
+                    self.pools.clear();
+                    if attempt == 13 {
+                        panic!("{}: cannot create a pool of {} threads: {:?}", RESOURCE_MARK, n, e);
+                    }
+                    std::thread::sleep(std::time::Duration::from_millis(wait));
+                    wait = (wait * 2).min(4000);
+                }
+            }
+        }
+        unreachable!()
+    }
+}
+
 #[cfg(feature = "rayon")]
 pub fn install<R: Send>(threads: usize, f: impl FnOnce() -> R + Send) -> R {
     use std::cell::RefCell;
-    use std::collections::HashMap;
-    use std::rc::Rc;
     thread_local! {
-        static POOLS: RefCell<HashMap<usize, Rc<rayon::ThreadPool>>> = RefCell::new(HashMap::new());
+        static POOLS: RefCell<Pools> = RefCell::new(Pools::new());
     }
-    let pool = POOLS.with(|p| {
-        p.borrow_mut()
-            .entry(threads)
-            .or_insert_with(|| Rc::new(rayon::ThreadPoolBuilder::new().num_threads(threads).build().expect("thread pool")))
-            .clone()
-    });
+    let pool = POOLS.with(|p| p.borrow_mut().get(threads));
     pool.install(f)
 }
 
